@@ -22,7 +22,7 @@ FUNCTIONS_ENCODED = [
 ]
 TRUSTED = ["vf.lpe (selector enumeration)", "vf.model", "independent reader: builtins.open + csv.reader + Point._deserialize_from_list"]
 ASSUMPTIONS = [
-    "configurations: flush_on_insert in {True, False}; encoding in {default, utf-8, utf-16, latin-1}; csv kwargs in {none, "
+    "configurations: access_mode r+ (default) and w+; flush_on_insert in {True, False}; encoding in {default, utf-8, utf-16, latin-1}; csv kwargs in {none, "
     "delimiter=';', quoting=QUOTE_ALL, quotechar=\"'\", lineterminator='\\n'}; compact key prefixes per insert",
     "contents: tag values / measurements from {'a', '', 'x,y', 'q\"q', \"s'q\", 'l\\nm', 'r\\rs', 'c\\r\\nd', 'é', ' sp ', ';'}; field values in "
     "{1, -0.5, None, 0}; times 0.5 s apart; other strings are outside the claim (C05 decides the row codec for all strings)",
@@ -51,6 +51,9 @@ SKELETONS = {
     "remove_all_one": ["ins", "rmall", "ins"],
     "remove_all_close": ["ins", "rmall"],
     "remove_everything_one": ["ins", "rm_every", "ins"],
+    # a file larger than one read-ahead chunk (8 KiB), a read that stops at the first row, then writes
+    "big_get_ins": ["big", "get", "ins", "contains", "ins"],
+    "big_get_upd": ["big", "get", "upd"],
 }
 
 
@@ -70,6 +73,8 @@ def h_file(params):
         nonlocal flush
         flush = sym_bool("flush")
         kwargs = dict(dia)
+        if params.get("access_mode"):
+            kwargs["access_mode"] = params["access_mode"]
         kwargs["flush_on_insert"] = flush
         if enc is not None:
             kwargs["encoding"] = enc
@@ -104,6 +109,10 @@ def h_file(params):
                     apply_op(h, ("ins", pspec(), None, None, compact and nins[0] != 1))
                 elif op == "insm":
                     apply_op(h, ("insm", [pspec(), pspec()]))
+                elif op == "big":
+                    first = pspec()
+                    rows = [first] + [{"time": 1_600_000_000_000_000 + (10 + i) * 500_000, "meas": "m", "tags": {"k": "filler-row-%03d" % i, "j": "x"}, "fields": {"f": i}} for i in range(150)]
+                    apply_op(h, ("insm", rows))
                 elif op == "get":
                     g = h.db.get(TagQuery().j == None)  # noqa: E711  stops at the first row
                     require(g is not None, lambda: "get returned None")
@@ -129,7 +138,7 @@ def h_file(params):
                     check(f"step {step} ({op})")
             h.db.close()
             check("close()")
-            db2 = TinyFlux(h.path, access_mode="r", **{k: v for k, v in kwargs.items() if k != "flush_on_insert"})
+            db2 = TinyFlux(h.path, **dict({k: v for k, v in kwargs.items() if k != "flush_on_insert"}, access_mode="r"))
             try:
                 h.req_points(db2.all(sorted=False), h.model.pts, "contents seen by a fresh TinyFlux(path, access_mode='r')")
                 require(len(db2) == len(h.model.pts), lambda: f"len of reopened db {len(db2)}")
@@ -158,9 +167,17 @@ def classify(ob, res):
 def obligations(tier):
     obs = []
     for sk in SKELETONS:
+        big = sk.startswith("big_")
         for e in range(len(ENCODINGS)):
             for d in range(len(DIALECTS)):
+                if big and (ENCODINGS[e] not in (None, "utf-16") or d > 1):
+                    continue  # 150-row files: two encodings x two dialects are enough for the buffer-boundary behaviour
                 for ai in (True, False):
-                    obs.append({"id": f"{sk}/enc-{ENCODINGS[e]}/dialect-{d}/{'ai' if ai else 'noai'}", "harness": "h_file", "params": {"skeleton": sk, "enc": e, "dialect": d, "ai": ai, "two": True}, "budget_s": 120 if tier == "quick" else 600})
+                    obs.append({"id": f"{sk}/enc-{ENCODINGS[e]}/dialect-{d}/{'ai' if ai else 'noai'}", "harness": "h_file", "params": {"skeleton": sk, "enc": e, "dialect": d, "ai": ai, "two": not big}, "budget_s": 120 if tier == "quick" else 600})
+    # a database created with access_mode='w+' (read/write, truncating on open): rewrites must not lose the data
+    for sk in ("update", "remove", "two_rewrites", "remove_all", "noops", "get"):
+        for d in (0, 1):
+            for ai in (True, False):
+                obs.append({"id": f"mode-w+/{sk}/dialect-{d}/{'ai' if ai else 'noai'}", "harness": "h_file", "params": {"skeleton": sk, "enc": 0, "dialect": d, "ai": ai, "two": False, "access_mode": "w+"}, "budget_s": 120})
     obs.append({"id": "twin/file", "harness": "h_file", "params": {"skeleton": "update", "enc": 1, "dialect": 0, "twin": True}, "budget_s": 60})
     return obs
